@@ -1,6 +1,9 @@
 package zv
 
 import (
+	"go/types"
+	"go/constant"
+	"strconv"
 	"go/token"
 	"regexp"
 	"sort"
@@ -24,6 +27,8 @@ func checkC16(c *Ctx) {
 	c.Rule("R16.1", "column order and presence guards in consoleEncoder.EncodeEntry", 12)
 	c.Rule("R16.2", "separators only between non-empty parts; constructor defaults", 2)
 	c.Rule("R16.3", "context rendered by a clone of the spaced JSON encoder, namespaces closed before the emptiness test, braces, released", 3)
+	c.Rule("R16.6", "encoder constructors keep the given configuration apart from the documented defaults; effective line ending", 4)
+	c16Constructor(c, "R16.6")
 	c.Rule("R16.5", "the console encoder's Clone carries context bytes, configuration, spacing and the open-namespace count (the context it later renders is the JSON encoder's)", 2)
 	c7CloneCarries(c, "R16.5")
 	c.Rule("R16.4", "optional column encoders are nil-guarded", 6)
@@ -553,4 +558,139 @@ func c16Grammar(c *Ctx, fn *ssa.Function) {
 	c.Check(len(bad) == 0, "R16.2", name, "line-grammar", fn.Pos(), "each of the %d explored paths (own helpers inline, up to 3 columns; %d longer paths cut) writes: columns joined by the separator placed before every column but the first; [separator iff the line is non-empty, message]; the context on a copying clone of the embedded JSON encoder - call-site fields added, namespaces closed, then tested for emptiness, and if non-empty: separator iff the line is non-empty, '{', the clone's bytes, '}'; [newline, stack]; line ending. Offending: %v", len(seqs), cut, bad)
 	c.Check(len(bad) == 0, "R16.3", name, "context-shape", fn.Pos(), "same exploration: the context is rendered by a copying clone (it carries the With-context bytes), never by the shared encoder, with the namespaces closed before the emptiness test")
 	c.Check(len(bad) == 0, "R16.3", name, "clone-released-after-use", fn.Pos(), "same exploration (deferred functions run at their function's return): the clone's buffer is freed and the clone recycled on every path, and only after its bytes were copied into the line")
+}
+
+// c16Constructor: the encoder constructors keep the configuration they are given, apart from the documented defaults:
+// an empty ConsoleSeparator becomes a tab, a missing NewReflectedEncoder the default one, and the effective line
+// ending is "" when SkipLineEnding is set, the default when LineEnding is empty, LineEnding itself otherwise. Which
+// sub-encoders are nil decides which console columns exist, so none may be filled in. By path exploration with
+// SkipLineEnding fixed and the emptiness of LineEnding forked by the code's own test.
+func c16Constructor(c *Ctx, rule string) {
+	for _, fname := range []string{"newJSONEncoder", "NewConsoleEncoder", "NewJSONEncoder"} {
+		fn := c.Func(CorePath, fname)
+		if !c.Anchor(rule, "zapcore."+fname, fn != nil && len(fn.Params) >= 1) {
+			continue
+		}
+		cfgN := fn.Params[0].Name()
+		allowed := map[string]bool{"LineEnding": true, "NewReflectedEncoder": true, "ConsoleSeparator": true}
+		var badStores, badLE []string
+		nRet := 0
+		for _, skip := range []int64{0, 1} {
+			sk := skip
+			seqs, trunc := ConcPaths(fn, ConcCfg{
+				Conc: func(d string) (int64, bool) {
+					if d == cfgN+".SkipLineEnding" || strings.HasSuffix(d, "cfg.SkipLineEnding") {
+						return sk, true
+					}
+					return 0, false
+				},
+				Branch: func(cond ssa.Value, taken bool, st *ConcState) string {
+					pol := taken
+					for k := 0; k < 8; k++ {
+						if u, ok := cond.(*ssa.UnOp); ok && u.Op == token.NOT {
+							cond, pol = u.X, !pol
+							continue
+						}
+						if nx := st.Step(cond); nx != nil {
+							cond = nx
+							continue
+						}
+						break
+					}
+					bo, ok := cond.(*ssa.BinOp)
+					if !ok {
+						return ""
+					}
+					l, r := st.Desc(bo.X), st.Desc(bo.Y)
+					if strings.HasSuffix(l, ".LineEnding") && r == `""` && (bo.Op == token.EQL || bo.Op == token.NEQ) {
+						if pol == (bo.Op == token.EQL) {
+							return "le-empty=T"
+						}
+						return "le-empty=F"
+					}
+					if strings.HasPrefix(l, "len(") && strings.HasSuffix(l, ".LineEnding)") && r == "0" {
+						if pol == (bo.Op == token.EQL) {
+							return "le-empty=T"
+						}
+						return "le-empty=F"
+					}
+					return ""
+				},
+				Event: func(in ssa.Instruction, st *ConcState) string {
+					x, ok := in.(*ssa.Store)
+					if !ok {
+						return ""
+					}
+					fa, ok := x.Addr.(*ssa.FieldAddr)
+					if !ok || TypeName(deref(fa.X.Type())) != "zapcore.EncoderConfig" {
+						return ""
+					}
+					f := fieldName(fa.X.Type(), fa.Field)
+					if !allowed[f] {
+						return "set(" + f + ")"
+					}
+					if f == "LineEnding" {
+						v := x.Val
+						for k := 0; k < 12; k++ {
+							nx := st.Step(v)
+							if nx == nil {
+								break
+							}
+							v = nx
+						}
+						if s, isC := ConstString(v); isC {
+							return "le=" + strconv.Quote(s)
+						}
+						if d := strings.TrimPrefix(st.Desc(x.Val), "&"); strings.HasSuffix(d, ".LineEnding") && !strings.ContainsAny(d, "( ") {
+							return "le=given"
+						}
+						return "le=?" + st.Desc(x.Val)
+					}
+					return ""
+				},
+			})
+			if trunc || len(seqs) == 0 {
+				c.Und(rule, fn.String(), "keeps-configuration", fn.Pos(), "path exploration incomplete")
+				continue
+			}
+			defLE := ""
+			if o, ok := c.Obj(CorePath, "DefaultLineEnding").(*types.Const); ok && o.Val().Kind() == constant.String {
+				defLE = constant.StringVal(o.Val())
+			}
+			for _, sq := range seqs {
+				nRet++
+				empty, final := 0, "given"
+				for _, t := range strings.Split(sq, " ; ") {
+					switch {
+					case strings.HasPrefix(t, "set("):
+						badStores = append(badStores, t)
+					case t == "le-empty=T":
+						empty = 1
+					case t == "le-empty=F":
+						empty = -1
+					case strings.HasPrefix(t, "le="):
+						final = t[3:]
+					}
+				}
+				want := "given"
+				switch {
+				case sk == 1:
+					want = `""`
+				case empty == 1:
+					want = strconv.Quote(defLE)
+				case empty == 0:
+					want = "either" // the code did not look: only right if it leaves the line ending alone or defaults it under a test
+				}
+				ok := final == want || want == "either" && final == "given"
+				if sk == 1 && final == "given" && empty == 1 {
+					ok = true // an empty line ending left empty
+				}
+				if !ok {
+					badLE = append(badLE, "SkipLineEnding="+itoa(int(sk))+": "+sq+" → line ending "+final+", expected "+want)
+				}
+			}
+		}
+		c.Check(len(badStores) == 0 && nRet > 0, rule, fn.String(), "keeps-configuration", fn.Pos(), "the constructor changes nothing of the configuration it was given except LineEnding, NewReflectedEncoder and ConsoleSeparator (a sub-encoder that is nil stays nil: it decides whether a console column exists): %v", badStores)
+		c.Check(len(badLE) == 0, rule, fn.String(), "effective-line-ending", fn.Pos(), "the effective line ending is \"\" with SkipLineEnding, the default for an empty LineEnding, LineEnding itself otherwise: %v", badLE)
+	}
 }
